@@ -203,6 +203,14 @@ fn run_unit(fills: &[Fill]) -> Result<Outcome, V> {
         if let Some(ex) = ex {
             catch(|| tear.update_from_position(&ex)).map_err(|m| ("panic_in_tear_sheet_update", format!("exit {ex:?}: {m}")))?;
             exits.push(exit_of(&ex));
+            // the generator is persistable state: every 4th exit the run continues on a copy restored from JSON
+            if exits.len() % 4 == 0 {
+                let back: TearSheetGenerator = serde_json::to_string(&tear).ok().and_then(|t| serde_json::from_str(&t).ok()).ok_or(("tear_sheet_generator_changed_by_persisting_and_restoring", "serde_json round trip failed".to_string()))?;
+                if back != tear {
+                    return Err(("tear_sheet_generator_changed_by_persisting_and_restoring", format!("restored {back:?} vs persisted {tear:?}")));
+                }
+                tear = back;
+            }
         }
     }
     let sheet = catch(|| tear.generate(Decimal::ZERO, Daily)).map_err(|m| ("panic_in_tear_sheet_generate", m))?;
